@@ -331,6 +331,10 @@ void Image::load(FILE* f) {
 
     // Read variable-sized BMP info header
     freadx(f, &header.info_header.header_size, 4);
+    if (header.info_header.header_size < WindowsBitmapInfoHeader::SIZE24) {
+      throw runtime_error(string_printf("unsupported bitmap header: size is %u, minimum supported size is %zu",
+          header.info_header.header_size.load(), WindowsBitmapInfoHeader::SIZE24));
+    }
     if (header.info_header.header_size > sizeof(header.info_header)) {
       throw runtime_error(string_printf("unsupported bitmap header: size is %u, maximum supported size is %zu",
           header.info_header.header_size.load(), sizeof(header.info_header)));
